@@ -265,6 +265,12 @@ def run_values(ctx, vi, via, fallback='none'):
                     detail={'value': name, 'via': via})
 
 
+MALFORMED = [('mal_dangling', 'role:r1 or'), ('mal_not', 'not'),
+             ('mal_paren', '(role:r1'), ('mal_quoted', '"r1"'),
+             ('mal_adjacent', 'role:r1 role:r2'), ('mal_nocolon', 'admin'),
+             ('mal_close', 'role:r1)')]
+
+
 def run_viafile(ctx, vi, via, slot):
     """The value sits in a real policy file (main file or policy.d) of an
     enforcer whose service registered defaults -- under a plain registered
@@ -274,11 +280,14 @@ def run_viafile(ctx, vi, via, slot):
     at load); the always-allow spellings must allow."""
     from oslo_policy import policy
     common.set_ctx(ctx)
-    name, value = (VALUES + VALID_TRUE)[vi]
-    valid_true = vi >= len(VALUES)
+    name, value = (VALUES + VALID_TRUE + MALFORMED)[vi]
+    valid_true = len(VALUES) <= vi < len(VALUES) + len(VALID_TRUE)
     if via == 'json' and name in ('date', 'list_set'):
         return
     where = str(ctx.choice('where', ['main', 'dir']))
+    # enforce_new_defaults off: the old default is OR-ed in -- but only when
+    # nothing overrides the old or the new name
+    graceful = bool(ctx.bool('enforce_new_defaults_off'))
     key, asked = {'plain': ('p', 'p'), 'new': ('new', 'new'),
                   'old': ('old', 'new')}[slot]
 
@@ -302,10 +311,12 @@ def run_viafile(ctx, vi, via, slot):
         else:
             env.write(fn, None, raw=text({'other': 'role:r2'}))
             env.write('policy.d/10.' + via, None, raw=text(doc))
-        enf = env.enforcer(defaults=defaults(), policy_file=env.path(fn))
+        enf = env.enforcer(defaults=defaults(), policy_file=env.path(fn),
+                           enforce_new_defaults=not graceful)
         env.write('absent.' + via, None, raw=text({'other': 'role:r2'}))
         ref = env.enforcer(defaults=defaults(), policy_dirs=(),
-                           policy_file=env.path('absent.' + via))
+                           policy_file=env.path('absent.' + via),
+                           enforce_new_defaults=not graceful)
         creds = {'roles': ctx.roles('role', ROLES)}
         got = common.decision(ctx, enf, asked, creds)
         absent = common.decision(ctx, ref, asked, creds)
@@ -317,6 +328,15 @@ def run_viafile(ctx, vi, via, slot):
             common.require_decision(ctx, got, z3.BoolVal(True),
                                     'viafile:always-allow-denied',
                                     detail=det)
+            return
+        if isinstance(value, str):
+            # a string that is not a sentence of the language is a rule
+            # that denies -- also when it sits under a deprecated name and
+            # is handed on to the new one
+            common.require_decision(ctx, got, z3.BoolVal(False),
+                                    'viafile:malformed-string-allows',
+                                    key='viafile:malformed-string-allows:%s'
+                                    % name, detail=det)
             return
         ctx.require(set(got.exc_names()) <= load_errors,
                     'viafile:undocumented-exception',
@@ -348,6 +368,7 @@ def run_rawyaml(ctx, ri, slot):
     common.set_ctx(ctx)
     raw = RAW_YAML[ri]
     where = str(ctx.choice('where', ['main', 'dir']))
+    graceful = bool(ctx.bool('enforce_new_defaults_off'))
     key, asked = {'plain': ('p', 'p'), 'new': ('new', 'new'),
                   'old': ('old', 'new')}[slot]
 
@@ -366,10 +387,12 @@ def run_rawyaml(ctx, ri, slot):
             env.write('policy.yaml', None, raw=base)
             env.write('policy.d/10.yaml', None, raw=text)
         enf = env.enforcer(defaults=defaults(),
-                           policy_file=env.path('policy.yaml'))
+                           policy_file=env.path('policy.yaml'),
+                           enforce_new_defaults=not graceful)
         env.write('absent.yaml', None, raw=base)
         ref = env.enforcer(defaults=defaults(), policy_dirs=(),
-                           policy_file=env.path('absent.yaml'))
+                           policy_file=env.path('absent.yaml'),
+                           enforce_new_defaults=not graceful)
         creds = {'roles': ctx.roles('role', ROLES)}
         got = common.decision(ctx, enf, asked, creds)
         absent = common.decision(ctx, ref, asked, creds)
@@ -397,7 +420,7 @@ def cubes_rawyaml(tier, seed):
 
 
 def cubes_viafile(tier, seed):
-    n = len(VALUES) + len(VALID_TRUE)
+    n = len(VALUES) + len(VALID_TRUE) + len(MALFORMED)
     return [{'vi': i, 'via': via, 'slot': slot} for i in range(n)
             for via in ('json', 'yaml') for slot in ('plain', 'new', 'old')]
 
